@@ -14,9 +14,11 @@ LEVEL = {'C11': 'exploration', 'C12': 'exploration', 'C15': 'exploration',
 
 PLANS = {
     'C16': {'quick': [('seq', 2500), ('threads', 2500),
-                      ('threads_toggle', 1500), ('long', 250)],
+                      ('threads_toggle', 1500), ('long', 250),
+                      ('long_faulty', 150)],
             'thorough': [('seq', 60000), ('threads', 70000),
-                         ('threads_toggle', 50000), ('long', 6000)]},
+                         ('threads_toggle', 50000), ('long', 6000),
+                         ('long_faulty', 4000)]},
     'C12': {'quick': [('seq', 2500), ('threads', 2500)],
             'thorough': [('seq', 60000), ('threads', 80000)]},
     'C15': {'quick': [('seq', 3000), ('threads', 2000), ('boot', 48)],
